@@ -17,6 +17,14 @@ CHECKS = {
         note=PROOF_NOTE + "Modelled, not verified: torch Sampler base class, Python iteration protocol; dataset.volume_indices contiguous (C12).",
         technique="Coq proof (induction over the sampler state machine) + translator-regenerated chunk arithmetic + exact model/implementation correspondence",
         design="§6 C13"),
+    "C10": dict(
+        text="Theorems for every size: centre-crop guard and window (start = floor((n-m)/2)), bbox crop element-wise spec with pad value (negative / out-of-range boxes), "
+             "pad_tensor placement, pad-then-centre-crop identity for every shape and parity of the difference (2-D on the regenerated code, any rank in the list model), "
+             "k-space crop/pad = image crop/pad under the Fourier inverse-pair contract. center_crop / pad_tensor / complex_center_crop arithmetic is regenerated from "
+             "direct/data/transforms.py on every run; crop_to_bbox and the F.pad convention are tied by exact correspondence on integer tensors.",
+        note=PROOF_NOTE + "Modelled, not verified: torch/numpy slicing and torch.nn.functional.pad (pair order validated by correspondence); Fourier operators only through backward(forward(x)) = x.",
+        technique="Coq proof (lia over regenerated index arithmetic, induction over tensor rank) + exact model/implementation correspondence",
+        design="§6 C10"),
 }
 
 PENDING = {
